@@ -283,3 +283,55 @@ def gated_lookups(repo, pid="C13"):
                 else:
                     out.append({"name": name, "status": "refuted", "detail": f"catalog look-up not dominated by a test of the truth value of `{recv}` (a provider without metadata would be consulted)", "clause": "provider_truthiness_gates_every_lookup", "backend": "syntactic scan", "kind": "K3-site"})
     return out
+
+
+FRESH_COLUMN_MAKERS = {"Column", "SqlFluffColumn", "SqlParseColumn", "of", "_to_src_col"}
+OWNER_ASSUMED = {
+    # (module, function): why the column is not yet a node of any graph when its owner is assigned
+    ("sqllineage.core.holders", "SubQueryLineageHolder.add_write_column"): "callers pass columns built from the column list / catalog in the same step (create_insert.extract); the has_column edge is added right after",
+    ("sqllineage.core.parser", "SourceHandlerMixin.end_of_query_cleanup"): "select-list columns collected by the extractor, inserted only by the add_column_lineage calls below the store",
+    ("sqllineage.core.models", "Column.to_source_columns"): "the subquery's own column objects are looked up by equality and re-owned with the SAME owner they already have (idempotent add to the owner set)",
+    ("sqllineage.core.parser.sqlparse.analyzer", "SqlParseLineageAnalyzer._extract_from_dml_merge"): "columns built from the MERGE clause tokens in the enclosing loop, inserted by the add_column_lineage call below",
+    ("sqllineage.core.parser.sqlfluff.extractors.merge", "MergeExtractor.extract"): "columns built from the MERGE clause segments in the enclosing loop, inserted by the add_column_lineage call below",
+    ("sqllineage.core.parser.sqlfluff.extractors.update", "UpdateExtractor.extract"): "columns built from the SET clause in the enclosing loop, inserted by the add_column_lineage call below",
+}
+
+
+def owner_stores(repo, pid="C06"):
+    """typestate 'owner assigned before insertion': a Column that may already be a graph node never gets a NEW owner (its
+    hash would change under the graph's feet).  Every `.parent = ...` store is a site: proved when the column is created in
+    the same function before the store, assumed (enumerated, justified) otherwise; a new unclassified site fails."""
+    out = []
+    for m in sorted(repo.modules.values(), key=lambda x: x.name):
+        if m.name in repo.ghost:
+            continue
+        for qual, fn in _functions(m):
+            made = set()
+            for sub in ast.walk(fn):
+                if isinstance(sub, ast.Assign) and len(sub.targets) == 1 and isinstance(sub.targets[0], ast.Name) and isinstance(sub.value, ast.Call):
+                    f = sub.value.func
+                    callee = f.id if isinstance(f, ast.Name) else (f.attr if isinstance(f, ast.Attribute) else None)
+                    if callee in FRESH_COLUMN_MAKERS:
+                        made.add(sub.targets[0].id)
+            k = 0
+            for sub in ast.walk(fn):
+                if not (isinstance(sub, ast.Attribute) and sub.attr == "parent" and isinstance(sub.ctx, ast.Store)):
+                    continue
+                if qual.endswith("Column.parent"):
+                    continue  # the setter itself
+                k += 1
+                tgt = ast.unparse(sub.value)
+                name = f"{pid}:site:{m.name}:{qual}:{tgt}.parent=#{k}"
+                if isinstance(sub.value, ast.Name) and sub.value.id in made:
+                    out.append({"name": name, "status": "proved", "detail": f"`{tgt}` is created in this function before the store: not yet a node of any graph", "clause": "owner_assigned_before_insertion", "backend": "syntactic scan", "kind": "K3-site"})
+                elif (m.name, qual) in OWNER_ASSUMED:
+                    out.append({"name": name, "status": "assumed", "detail": "ASSUMED: " + OWNER_ASSUMED[(m.name, qual)], "clause": "owner_assigned_before_insertion", "backend": "syntactic scan", "kind": "K3-site"})
+                else:
+                    out.append({"name": name, "status": "refuted", "detail": f"owner of `{tgt}` assigned at a site where the column may already be a graph node", "clause": "owner_assigned_before_insertion", "backend": "syntactic scan", "kind": "K3-site"})
+            # the owner set only grows: no removal from _parent anywhere
+            for sub in ast.walk(fn):
+                if isinstance(sub, ast.Call) and isinstance(sub.func, ast.Attribute) and sub.func.attr in ("remove", "discard", "clear", "pop") and isinstance(sub.func.value, ast.Attribute) and sub.func.value.attr == "_parent":
+                    out.append({"name": f"{pid}:site:{m.name}:{qual}:{ast.unparse(sub)[:40]}", "status": "refuted", "detail": "an owner is removed from a column (owner sets must only grow)", "clause": "owner_sets_only_grow", "backend": "syntactic scan", "kind": "K3-site"})
+                if isinstance(sub, ast.Attribute) and sub.attr == "_parent" and isinstance(sub.ctx, ast.Store) and not qual.endswith("Column.__init__"):
+                    out.append({"name": f"{pid}:site:{m.name}:{qual}:_parent=", "status": "refuted", "detail": "owner set replaced outside the constructor", "clause": "owner_sets_only_grow", "backend": "syntactic scan", "kind": "K3-site"})
+    return out
